@@ -73,7 +73,7 @@ for name, ctype in IDX:
         for n, (lo, hi) in enumerate([(0, R4), (R4, NG)]):
             units.append(Unit(f"C19_two_int32_q{n}", "harness/C19_md.cpp", defs=defs(name, ctype, lo, hi, 2, TWO_GROUP),
                               flavours={"quick": [O0], "thorough": []}, shards={"quick": 1, "thorough": 1}))
-    else:
+    elif name in ("uint64", "int8"):  # quick: int32, uint64 and the narrowest type; the other five only in thorough
         units.append(Unit(f"C19_two_{name}_s", "harness/C19_md.cpp", defs=defs(name, ctype, 0, NG, 5 if name == "uint64" else 9, TWO_GROUP),
                           flavours={"quick": [O0], "thorough": []}, shards={"quick": 1, "thorough": 1}))
     full = name in ("int32", "uint64")
@@ -98,7 +98,7 @@ PROBES = {1: "stride_rank0", 2: "span_bytes", 3: "ctad_mdarray", 4: "stride_rss"
 # probe 12 (mdspan assignment / swap) does not compile on a tree without proposed/C19/fixes3/0001 (etl::mdspan is not assignable):
 # switch it on together with that fix or with the findings3.jsonl line; until then the C19_two_* units detect the operators with a
 # trait and report them as absent in the evidence samples.
-ENABLE_MDSPAN_ASSIGN_PROBE = False
+ENABLE_MDSPAN_ASSIGN_PROBE = True
 if ENABLE_MDSPAN_ASSIGN_PROBE:
     PROBES[12] = "mdspan_assign"
 for n, pn in PROBES.items():
